@@ -14,7 +14,14 @@ def call(g, a, b, C):
     gr = GG.to_y0(g, loose=True)
     before = GG.snapshot(gr)
     try:
-        j = are_d_separated(gr, GG.V(a), GG.V(b), conditions=GG.present([GG.V(c) for c in C], (a, b)))
+        import zlib
+        how = zlib.crc32(repr((g, a, b)).encode()) % 3
+        if not C and how == 0:
+            j = are_d_separated(gr, GG.V(a), GG.V(b))                      # no conditions given at all
+        elif not C and how == 1:
+            j = are_d_separated(gr, GG.V(a), GG.V(b), conditions=None)
+        else:
+            j = are_d_separated(gr, GG.V(a), GG.V(b), conditions=GG.present([GG.V(c) for c in C], (a, b)))
         out = 1 if j.separated else 0
         canonical = bool(j.is_canonical) and set(j.conditions) == {GG.V(c) for c in C} and {j.left, j.right} == {GG.V(a), GG.V(b)}
     except KeyError:
